@@ -51,7 +51,9 @@ CHECKS = {
     "C09": ("RefSearch.tla (unpruned negamax with the named leaf rule) evaluated by TLC on full game trees dumped from the real engine, compared with the table-less optimised search under several ordering states; Pvs.tla: the window / re-search algorithm = negamax on all bounded abstract trees",
             "For each (position, depth) the whole tree is dumped with the engine's generator and evaluation; the real search runs with the table "
             "emptied at every node (hook) and with fresh / random history tables; TLC computes the exhaustive value and requires equality after "
-            "mate-range clamping.", "6-C09", "TLC as evaluator of a transcribed pure function; trees <= 60000 nodes (depth <= 4 sparse, <= 2 rich)."),
+            "mate-range clamping. Window level: the windowed search is also called as an interior node (hook verif_window_search, depth 0-3, ~10 "
+            "null and wide windows per case, also on positions after illegal pseudo-moves) and TLC requires the alpha-beta contract that Pvs.tla "
+            "proves for every window (v<=a => r<=a; v>=b => r>=b; else r=v).", "6-C09", "TLC as evaluator of a transcribed pure function; trees <= 60000 nodes (depth <= 4 sparse, <= 2 rich)."),
     "C10": ("Chess.tla as independent mate solver (MateIn1Moves, KeepsMate2Moves, dead roots) run by TLC over a generated family; real search judged by TraceSearch.tla",
             "TLC classifies every member of the K+Q/R v K rim family (and fixed extra positions) into mate-in-1, forced mate-in-2, checkmated, "
             "stalemated; the real search runs from a fresh table to depth 3-5 / 5-6 / unlimited; TLC requires a mating / mate-keeping move, "
